@@ -535,10 +535,13 @@ def index(d, radixes):
     return x
 
 
-def observe_columns(U, cols, tol):
+DEV_UNIT = 1e-6       # deviations and budgets go to TLC as integers, in units of 1e-6 (2-norm of a column difference)
+
+
+def observe_columns(U, cols):
     """Discretise the given columns of U: physical index of the peak, phase class relative to the first listed column
-    (one global phase is divided out before quantising), and whether the column is within ``tol`` (2-norm) of that
-    basis vector times that phase class."""
+    (one global phase is divided out before quantising), and ``dev`` = the 2-norm distance of the column from that
+    basis vector times that phase class, in units of DEV_UNIT (the specification compares it with the budget)."""
     g0 = 1.0
     if cols:
         c0 = U[:, cols[0]]
@@ -552,7 +555,7 @@ def observe_columns(U, cols, tol):
         ph = exact.phase_class(col[j])
         ideal = np.zeros(U.shape[0], dtype=complex)
         ideal[j] = np.exp(2j * np.pi * ph / exact.PH)
-        out.append({'idx': j, 'ph': ph, 'within': bool(np.linalg.norm(col - ideal) <= tol)})
+        out.append({'idx': j, 'ph': ph, 'dev': int(min(3.0, float(np.linalg.norm(col - ideal))) / DEV_UNIT)})
     return out
 
 
@@ -632,7 +635,8 @@ def prefix_connected(model, n):
 SYNTH_EPS = 1e-8
 # JVM options for the (many, short) TLC runs of these checks: by default every JVM starts one GC thread and one JIT
 # compiler thread per core, which costs more CPU than the model checking itself on a shared 16-core machine.
-JVM_ENV = {'JAVA_TOOL_OPTIONS': '-Xss16m -XX:ParallelGCThreads=2 -XX:TieredStopAtLevel=1 -XX:CICompilerCount=1'}
+# (Not -XX:TieredStopAtLevel=1: the deep recursion of the trace specs overflows the stack under the C1-only compiler.)
+JVM_ENV = {'JAVA_TOOL_OPTIONS': '-Xss128m -XX:ParallelGCThreads=2 -XX:CICompilerCount=2'}
 
 
 def run_compile_case(case):
@@ -706,8 +710,9 @@ def observe_output(sub, case, out, pi, pf, model, names):
     lradixes = [radix] * n
     ok_embed = (len(pi) == n and len(pf) == n and all(0 <= p < N for p in pi) and all(0 <= p < N for p in pf)
                 and len(set(pi)) == n and all(oradixes[p] == radix for p in pi))
-    o['obs'] = [{'idx': 0, 'ph': 0, 'within': False}]
+    o['obs'] = [{'idx': 0, 'ph': 0, 'dev': 0}]
     o['obs_ok'] = False
+    o['tol'] = 0
     kind = sub['kind']
     bs = [0] if kind == 'state' else [p['i'] for p in sub['pairs']] if kind == 'system' else list(range(radix ** n))
     o['bs'] = bs
@@ -721,9 +726,8 @@ def observe_output(sub, case, out, pi, pf, model, names):
                 pd[p] = ld[i]
             cols.append(index(pd, oradixes))
         nblocks = max(1, o['nops'] // 4)
-        tol = budget(SYNTH_EPS, radix ** 3, min(nblocks, 60))
-        o['tol'] = tol
-        o['obs'] = observe_columns(U, cols, tol)
+        o['tol'] = int(budget(SYNTH_EPS, radix ** 3, min(nblocks, 60)) / DEV_UNIT)
+        o['obs'] = observe_columns(U, cols)
         o['obs_ok'] = True
     return o
 
@@ -783,7 +787,7 @@ def sem_case(case, res):
     items = [sem_item(dict(s, n=s.get('n', case['n'])), case['radix']) for s in subs]
     if res['status'] != 'ok':
         return {'status': res['status'], 'items': items, 'results': [], 'creg_size': CREG_SIZE}
-    results = [{'mr': o['radixes'], 'pi': o['pi'], 'pf': o['pf'], 'bs': o['bs'], 'obs': o['obs'], 'obs_ok': o['obs_ok'],
+    results = [{'mr': o['radixes'], 'pi': o['pi'], 'pf': o['pf'], 'bs': o['bs'], 'obs': o['obs'], 'obs_ok': o['obs_ok'], 'tol': o['tol'],
                 'meas_out': o['meas_out'], 'cregs_out': o['cregs_out']} for o in res['results']]
     return {'status': 'ok', 'items': items, 'results': results, 'creg_size': CREG_SIZE}
 
@@ -852,7 +856,7 @@ def corrupted_sem_cases(sem_cases):
                 o['idx'] = (o['idx'] + 1) % dim
                 add('%s:one-column-moved' % it['kind'], k, differ)
             k = copy.deepcopy(c)
-            k['results'][0]['obs'][0]['within'] = False
+            k['results'][0]['obs'][0]['dev'] = k['results'][0]['tol'] + 1
             add('%s:column-outside-the-budget' % it['kind'], k, differ)
             if len(r['obs']) >= 2:
                 k = copy.deepcopy(c)
